@@ -556,6 +556,19 @@ theorem cascadeLoop_spec :
             exact hnq (List.mem_append_right _ (List.mem_map.mpr ⟨d', hd', heq.symm⟩))
           · exact hnew d' hd'
 
+theorem mem_foldl_drop_graph (child : Nat) {e : Edge} :
+    ∀ (secs : List Nat) (s : State),
+      e ∈ (secs.foldl (fun (st : State) sec =>
+        { st with graph := dropAccess st.graph child sec, ttl := ttlRemove st.ttl child sec }) s).graph ↔
+      e ∈ s.graph ∧ ∀ sec ∈ secs, ¬ (e.src = entNode child ∧ e.dst = secNode sec ∧ e.kind.isAccess = true)
+  | [], s => by simp
+  | sec :: rest, s => by
+    rw [List.foldl_cons, mem_foldl_drop_graph child rest]
+    simp only [mem_dropAccess, List.mem_cons, forall_eq_or_imp]
+    constructor
+    · rintro ⟨⟨h1, h2⟩, h3⟩; exact ⟨h1, h2, h3⟩
+    · rintro ⟨h1, h2, h3⟩; exact ⟨⟨h1, h2⟩, h3⟩
+
 theorem mem_dropRecord_graph {s : State} {d : DelegRec} {e : Edge} :
     e ∈ (s.dropRecord d).graph ↔
       e ∈ s.graph ∧ ∀ sec ∈ d.secrets, ¬ (e.src = entNode d.child ∧ e.dst = secNode sec ∧ e.kind.isAccess = true) := by
@@ -916,6 +929,9 @@ theorem step_inv {s : State} (h : HI s) (t : Nat) (op : Op) : HI (step s t op).1
     · exact hp.shrink (fun _ ht => ht) rfl
   | undelegateCascade p c => exact ⟨undelegateCascade_inv h p c, undelegateCascade_subp s p c⟩
   | reopen => exact ⟨(reopen_inv h hp t).1, (reopen_inv h hp t).2.1⟩
+  | probe req sec need me =>
+    simp only [step]; unfold State.probe
+    exact ⟨guarded_ti h (fun s' hs' => by split <;> exact hs'), guarded_subp hp (fun s' hs' => by split <;> exact hs')⟩
 
 theorem run_inv : ∀ (h : List (Nat × Op)) (s : State), HI s → HI (run s h)
   | [], _, hs => hs
